@@ -142,3 +142,34 @@ func vC12Overlap(L int) {
 
 func vhC12_overlap_L1() { vC12Overlap(1) }
 func vhC12_overlap_L2() { vC12Overlap(2) }
+
+// C12 (re-subscription with different input): a pipeline built once is subscribed twice and the
+// source plays a different script each time; each subscription must give what the entry's
+// reference gives for ITS script (state kept from the first run — a map, a buffer, a counter —
+// shows as soon as the second run differs from the first).
+func vC12Reuse2(L int) {
+	op := &vCatalog[vChoice("entry", len(vCatalog))]
+	if op.nsrc != 1 || op.ref == nil {
+		vAssume(false)
+	}
+	a, b := vLegalScript("a", L), vLegalScript("b", L)
+	p := &vProbe{name: "src", scripts: [][]vStep{a, b}}
+	c := &vCtx{src: []Observable[int64]{p}, L: L}
+	pipe := op.mk(c)
+	r1 := &vRecorder{name: "a"}
+	pipe(context.Background(), r1)
+	if p.subs != 1 {
+		vAssume(false)
+	}
+	vSameEvents(op.name+" (first subscription)", r1.evs, op.ref(c, a))
+	r2 := &vRecorder{name: "b"}
+	pipe(context.Background(), r2)
+	if p.subs != 2 {
+		vAssume(false)
+	}
+	vSameEvents(op.name+" (second subscription, different input)", r2.evs, op.ref(c, b))
+	vReach("end")
+}
+
+func vhC12_reuse2_L2() { vC12Reuse2(2) }
+func vhC12_reuse2_L3() { vC12Reuse2(3) }
